@@ -390,6 +390,10 @@ class Flow:
     def alternatives(self, term):
         """The canonical terms of the definitions merged in a ('var', name, ids) term (a name with several reaching
         definitions), or [term].  None when one of the definitions has no value term (augmented, deleted, unbound)."""
+        if isinstance(term, tuple) and term and term[0] == "ifexp":
+            # a conditional expression is one of its arms
+            a, b = self.alternatives(term[2]), self.alternatives(term[3])
+            return None if a is None or b is None else a + b
         if not (isinstance(term, tuple) and term and term[0] == "var" and len(term) == 3 and term[2]):
             return [term]
         out = []
@@ -487,14 +491,21 @@ class Flow:
 
     def subscript(self, base, key):
         # the attribute dict that `for n, attrs in G.nodes(data=True)` yields is G.nodes[n]
+        c = None
         if base[0] == "iter" and key == ("const", 1):
             c = base[2]
+        elif base[0] == "sub" and base[2] == ("const", 1) and base[1][0] == "iter" and key == ("const", 1):
+            # ... also under enumerate: for i, (n, attrs) in enumerate(G.nodes(data=True))
+            en = base[1][2]
+            if en[0] == "call" and en[2] == ("builtin", "enumerate") and en[3]:
+                c = en[3][0]
+        if c is not None:
             if c[0] == "call" and c[2][0] == "attr" and c[2][2] == "nodes" and not c[3] and c[4] == (("data", ("const", True)),):
                 return ("sub", ("attr", c[2][1], "nodes"), ("sub", base, ("const", 0)))
             if c[0] == "call" and c[2][0] == "attr" and c[2][2] == "nodes" and c[3] == (("const", True),) and not c[4]:
                 return ("sub", ("attr", c[2][1], "nodes"), ("sub", base, ("const", 0)))
-            # ... and so is the value in `for n, attrs in G.nodes.items()`
-            if c[0] == "call" and c[2][0] == "attr" and c[2][2] == "items" and not c[3] and not c[4] and c[2][1][0] == "attr" and c[2][1][2] == "nodes":
+            # ... and so is the value in `for n, attrs in G.nodes.items()` (the same for G.edges.items())
+            if c[0] == "call" and c[2][0] == "attr" and c[2][2] == "items" and not c[3] and not c[4] and c[2][1][0] == "attr" and c[2][1][2] in ("nodes", "edges"):
                 return ("sub", c[2][1], ("sub", base, ("const", 0)))
         # the data dict that `for a, b, data in G.edges(data=True)` yields is G.edges[(a, b)]
         if base[0] == "iter" and key == ("const", 2):
@@ -504,6 +515,11 @@ class Flow:
             if c[0] == "call" and c[2][0] == "attr" and c[2][2] == "edges" and \
                     ((not c[3] and c[4] == (("data", ("const", True)),)) or (c[3] == (("const", True),) and not c[4])):
                 return ("sub", ("attr", c[2][1], "edges"), ("tuple", (("sub", base, ("const", 0)), ("sub", base, ("const", 1)))))
+        # the i-th component of an element of a comprehension / generator that yields tuple literals
+        if base[0] == "iter" and key[0] == "const" and isinstance(key[1], int) and not isinstance(key[1], bool) and base[2][0] == "comp" and \
+                base[2][1] in ("list", "gen", "generator") and base[2][3][0] == "tuple" and 0 <= key[1] < len(base[2][3][1]) and \
+                not any(x[0] == "star" for x in base[2][3][1]):
+            return base[2][3][1][key[1]]
         # the i-th component of an element of itertools.product(A, B, ...) is an element of the i-th factor
         if base[0] == "iter" and key[0] == "const" and isinstance(key[1], int) and not isinstance(key[1], bool):
             c = base[2]
@@ -684,10 +700,35 @@ class Flow:
         if isinstance(e, ast.Slice):
             return ("slice", c(e.lower), c(e.upper), c(e.step))
         if isinstance(e, ast.Call):
-            args = tuple(c(a) for a in e.args)
+            args = []
+            for a in e.args:
+                ta = c(a)
+                # f(*(x, y)) is f(x, y)
+                if ta[0] == "star" and ta[1][0] in ("tuple", "list") and not any(x[0] == "star" for x in ta[1][1]):
+                    args.extend(ta[1][1])
+                else:
+                    args.append(ta)
+            args = tuple(args)
             kwargs = tuple(sorted(((k.arg or "**"), c(k.value)) for k in e.keywords))
             args, kwargs = self._normalise_call(e, args, kwargs)
-            return ("call", self._site(e), c(e.func), args, kwargs)
+            f = c(e.func)
+            # a compiled pattern's method is the module-level function with the pattern in front:
+            # re.compile(P).findall(s) is re.findall(P, s), also through a module-level constant
+            if f[0] == "attr" and f[2] in ("findall", "finditer", "match", "search", "fullmatch", "split", "sub", "subn"):
+                recv = f[1]
+                if recv[0] == "modconst":
+                    mname, cname = recv[1].split(":", 1)
+                    try:
+                        mod = self.repo.module(mname)
+                        cv = mod.constants.get(cname)
+                    except Exception:
+                        cv = None
+                    if isinstance(cv, ast.Call) and isinstance(cv.func, ast.Attribute) and cv.func.attr == "compile" and isinstance(cv.func.value, ast.Name) and \
+                            cv.func.value.id == "re" and cv.args and all(isinstance(a, ast.Constant) for a in cv.args) and not cv.keywords:
+                        recv = ("call", None, ("ext", "re.compile"), tuple(const(a.value) for a in cv.args), ())
+                if recv[0] == "call" and recv[2] == ("ext", "re.compile") and len(recv[3]) == 1 and not recv[4]:
+                    return ("call", self._site(e), ("ext", "re." + f[2]), (recv[3][0],) + args, kwargs)
+            return ("call", self._site(e), f, args, kwargs)
         if isinstance(e, ast.Starred):
             return ("star", c(e.value))
         if isinstance(e, ast.Tuple):
